@@ -17,7 +17,7 @@ Not decided: the exact line sequence for a given chart (runtime).
 import ast
 
 from sa.model import AnalysisError, walk_shallow, dotted, norm
-from sa.util import cfg_of, shallow_calls, guarded_by_edge, const_str, status_const, strip_not
+from sa.util import expand_locals, cfg_of, shallow_calls, guarded_by_edge, const_str, status_const, strip_not
 from sa.context import callgraph
 from sa import queues, wrap
 
@@ -189,7 +189,7 @@ def check(run, model, tier):
                 oko = all(not gg.exists_path(n, f_) for f_ in fncalls) and any(gg.dominates(f_, n) for f_ in fncalls)
             run.inst('SPY.markers', inn, 'marker %r is written %s the wrapped operation' % (text, when), oko, 'marker order is wrong', node=c, obligation=True)
             if isinstance(a, ast.Call) and a.args:
-                arg = norm(a.args[0])
+                arg = norm(expand_locals(a.args[0], inn.node, depth=1, params=inn.params))
                 okn = arg.endswith('.signal_name') and (arg.split('.')[0] in inn.params or text == 'RECALL:')
                 run.inst('SPY.markers', inn, 'marker %r names the signal of the event concerned' % text, okn, 'marker argument is %s' % arg, node=c, obligation=True)
     marker_wrapper('spy_on_start', 'START', 'before')
